@@ -82,11 +82,9 @@ fn main() {
     rayon::ThreadPoolBuilder::new().stack_size(256 << 20).build_global().unwrap();
     let code = std::thread::Builder::new()
         .stack_size(256 << 20)
-        .spawn(move || match id.as_str() {
-            "C04" => driver::run(&props::c04::C04, &opts),
-            "C06" => driver::run(&props::c06::C06, &opts),
-            "C14" => driver::run(&props::c14::C14, &opts),
-            _ => {
+        .spawn(move || match props::dispatch(&id, &opts) {
+            Some(c) => c,
+            None => {
                 eprintln!("unknown property {id}");
                 2
             }
